@@ -238,3 +238,34 @@ func seqGT(a, b uint32, is32 bool) bool {
 	}
 	return a != b && int16(uint16(a)-uint16(b)) > 0
 }
+
+// checkBlockingWriteLaw (C18): in blocking-write mode a write returns only after all
+// previously written data of the association has been handed to the transmission
+// queue, i.e. every byte of every earlier accepted message has been put on the
+// wire at least once.
+func (m *wireMon) checkBlockingWriteLaw(X int, cur *msgRec) {
+	if m.x == nil {
+		return
+	}
+	emitted := map[*msgRec]int{}
+	for _, ti := range m.s[X].sent {
+		if ti.msg != nil {
+			emitted[ti.msg] += ti.n
+		}
+	}
+	for _, d := range m.x.dirs {
+		if d.from != X {
+			continue
+		}
+		for _, q := range d.msgs {
+			if q == cur || !q.done || q.err != nil || q.returnSeq > cur.invokeSeq {
+				continue
+			}
+			if emitted[q] < q.size {
+				m.w.violate("C18", "blocking-write-returned-early", "%s: write of message %d returned while message %d (stream %d, %d bytes, accepted earlier) has only %d bytes on the wire", m.name(X), cur.id, q.id, q.sid, q.size, emitted[q])
+				return
+			}
+		}
+	}
+	m.count("c18.blocking-write-law-checked")
+}
